@@ -63,6 +63,8 @@ fn numeric_templates() -> Vec<(&'static str, bool)> {
         ("pub enum E: u8 {\n    A = {N},\n    B,\n}\n", false),
         ("pub enum E: i64 {\n    A = {N},\n    B = {M},\n    C,\n}\n", false),
         ("#[singleton({N})]\npub enum E: u32 {\n    A,\n}\n", false),
+        ("pub enum E: u128 {\n    A = {N},\n    B,\n}\npub enum F: i128 {\n    A = {N},\n    B,\n}\n", false),
+        ("pub enum E: i8 {\n    A = {N},\n    B,\n}\npub enum F: u16 {\n    A = {N},\n    B,\n}\npub enum G: i16 {\n    A = {N},\n}\npub enum H: u32 {\n    A = {N},\n}\npub enum I: i32 {\n    A = {N},\n}\npub enum J: u64 {\n    A = {N},\n    B,\n}\n", false),
         ("pub type Inner {\n    pub a: [u8; {N}],\n}\npub type Outer {\n    pub i: [Inner; {M}],\n    pub j: Inner,\n}\n", false),
     ]
 }
@@ -205,6 +207,20 @@ pub fn cases(tier: &str, accepted_token_texts: &[String]) -> Vec<Case> {
     }
     for g in graphs::graph_inputs(if tier == "thorough" { "quick" } else { "sched" }, tier != "thorough") {
         out.push(Case { family: "graph", kind: Kind::Build(g.input) });
+    }
+    // inheritance hierarchies with clashing function names (every 5th of C07's space), and
+    // names that already look like a renamed inherited function
+    for (i, input) in crate::checks::c07::all_inputs(tier).into_iter().enumerate() {
+        if tier == "thorough" || i % 5 == 0 {
+            out.push(Case { family: "hierarchy", kind: Kind::Build(input) });
+        }
+    }
+    for names in [["foo", "b_foo", "foo"], ["foo", "a_foo", "foo"], ["b_foo", "foo", "b_foo"], ["foo", "b_b_foo", "b_foo"]] {
+        let t = format!(
+            "pub type A {{\n    pub x: u32,\n}}\nimpl A {{\n    #[address(0x10)]\n    pub fn {}(&self);\n    #[address(0x20)]\n    pub fn {}(&self);\n}}\npub type B {{\n    pub y: u32,\n}}\nimpl B {{\n    #[address(0x30)]\n    pub fn {}(&self);\n}}\npub type D {{\n    #[base]\n    pub a: A,\n    #[base]\n    pub b: B,\n}}\npub type DD {{\n    #[base]\n    pub b: B,\n    #[base]\n    pub d: D,\n}}\n",
+            names[0], names[1], names[2]
+        );
+        out.push(Case { family: "oddity", kind: Kind::Build(Input::single(t)) });
     }
     for t in accepted_token_texts {
         out.push(Case { family: "token_sequence", kind: Kind::Build(Input::single(t.clone())) });
